@@ -392,3 +392,11 @@ func (s *Sim) genEvmTx(k *appdrv.Key) *appdrv.TxSpec {
 }
 
 var _ = json.Marshal
+
+// AcctOf exposes the consensus view of an account (nonce, balance).
+func (s *Sim) AcctOf(a rtypes.Address) (uint64, *uint256.Int, bool) { return s.acct(a) }
+
+// TransferFrom builds a well-formed transfer.
+func (s *Sim) TransferFrom(k *appdrv.Key, to rtypes.Address, amt *uint256.Int) []byte {
+	return s.base(k, ctrlertypes.TRX_TRANSFER, to, amt, nil).Build()
+}
